@@ -604,11 +604,32 @@ def compile_operator_map(ctx):
     return _memo(ctx, 'compile_operator_map', build)
 
 
+def fused_fn(F):
+    """the compiler's routine that selects a fused instruction: by its pinned name, or (after it was renamed and its signature
+    changed, so that it is no plain rename) the one method of the compiler with an Operator parameter that looks a name up and
+    emits an instruction"""
+    name = 'compiler::Compiler::compile_const_var_infix_expression'
+    if name in F.fns:
+        return F.fns[name]
+    cands = []
+    for f in list(F.all_fns) + list((getattr(F, 'transparent_fns', None) or {}).values()):
+        if not f.path.startswith('compiler::Compiler::') or '{closure' in f.path:
+            continue
+        if not any('ast::Operator' in f.local_ty(i) for i in range(1, f.arg_count + 1)):
+            continue
+        names = {callee_name(t) for _, t in f.calls()}
+        if 'symbols::SymbolTable::resolve' in names and 'compiler::Compiler::emit_opcode' in names:
+            cands.append(f)
+    if len(cands) != 1:
+        raise CheckerError('anchor function %s not found in the facts (and %d methods of the compiler have its role)' % (name, len(cands)))
+    return cands[0]
+
+
 def fused_map(ctx):
     """(Operator, Scope) -> fused OpCode or '<fallback>' from compile_const_var_infix_expression"""
     def build():
         F = ctx.facts()
-        fn = F.fn('compiler::Compiler::compile_const_var_infix_expression')
+        fn = fused_fn(F)
 
         def decide(name, argv, t):
             return None
